@@ -11,8 +11,8 @@
 (* o.whole [ret, map, bbox]    Text(T).draw() / .bounding_box()               *)
 (* o.lf    [text, ret, map, bbox]   the same for T' = T with every CR LF      *)
 (*         replaced by LF (identical to o.whole when T' = T)                  *)
-(* o.lines the lines of T' (split at LF) drawn as separate single-line texts  *)
-(*         with the same styles at (pos.x, pos.y + j LH):                     *)
+(* o.lines the lines of T (split at LF, without the CR of a CR LF line ending) *)
+(*         drawn as separate single-line texts at (pos.x, pos.y + j LH):      *)
 (*         [text, y, ret, map, m0, mp], m0 / mp = next_position returned by   *)
 (*         character_style.measure_string(line, (0,0) / (pos.x, y), base)     *)
 (* o.top   [used, ret, map]    T drawn with Baseline::Top (when base # Top)   *)
@@ -31,22 +31,23 @@
 (* (d) baseline  the top of the first line's cell (observable with text and   *)
 (*     background colour) is pos.y - off; the picture                         *)
 (*     is the Baseline::Top picture moved up by off.                          *)
-(* (e) lines  the picture of T' is the overlay of its lines drawn separately, *)
+(* (e) lines  the picture of T is the overlay of its lines drawn separately,  *)
 (*     LH apart; draw returns what the last of them returns.                  *)
 (* (f) crlf  T and T' leave the same picture, return the same position and    *)
 (*     have the same bounding box.                                            *)
 (* (g) bounded  the bounding box the target reports changes neither the       *)
 (*     returned position nor what is painted inside that box.                 *)
-(* Not constrained (the property text does not say): a line that still ends   *)
-(* with CR (a lone CR at the end of the text, CR CR LF) in (a), (c), (d);     *)
-(* empty lines under Right / Center in (a); texts whose T' still contains     *)
-(* CR LF in (f); texts containing CR or LF in (b).                            *)
+(* A CR that is not followed by LF is an ordinary (unmapped) character of its *)
+(* line: the separately drawn lines of T' keep it, and so must T (D26).       *)
+(* Not constrained (the property text does not say): empty lines under Right  *)
+(* / Center in (a); texts whose T' still contains CR LF (from CR CR LF) in    *)
+(* (f); texts containing LF in (b).                                           *)
 EXTENDS EGText
 
 LayoutWellFormed(o) ==
   LET lh == LineHeightA(o.lh, o.font.ch)
       tl == NormalizeCRLF(o.text)
-      ls == SplitLF(tl)
+      ls == TrueLines(o.text)
   IN /\ o.font.cw >= 1 /\ o.font.ch >= 1 /\ o.font.s >= 0
      /\ o.lf.text = tl
      /\ Len(o.lines) = Len(ls)
@@ -56,7 +57,7 @@ LayoutWellFormed(o) ==
      /\ RCanonical(o.whole.map) /\ RCanonical(o.lf.map)
      /\ (o.lf.text = o.text => o.lf.map = o.whole.map /\ o.lf.ret = o.whole.ret /\ o.lf.bbox = o.whole.bbox)
      /\ (o.top.used = 1 => o.base # 0 /\ RCanonical(o.top.map))
-     /\ (o.chains # <<>> => ~HasCRorLF(o.text) /\ o.align = 0)
+     /\ (o.chains # <<>> => ~HasLF(o.text) /\ o.align = 0)
      /\ \A i \in 1..Len(o.small) : RCanonical(o.small[i].map)
      /\ \A i \in 1..Len(o.chains) :
           LET c == o.chains[i] IN
@@ -71,7 +72,7 @@ RetDev(o, j) ==
        <<IF Abs(d) <= 1 THEN 0 ELSE d, ln.ret[2] - ln.mp[2]>>
 RetConstrained(o, j) ==
   LET ln == o.lines[j] IN
-  ~EndsWithCR(ln.text) /\ (o.align = 0 \/ (Len(ln.text) > 0 /\ ln.m0[1] >= 1))
+  o.align = 0 \/ (Len(ln.text) > 0 /\ ln.m0[1] >= 1)
 RetFails(o, j) ==
   IF RetConstrained(o, j) /\ RetDev(o, j) # <<0, 0>> THEN {"ret_ne_measure"} ELSE {}
 RetDetail(o, j) ==
@@ -83,7 +84,7 @@ RetDetail(o, j) ==
 \* (c)
 \* (text and background colour: every pixel of every cell and of the spacing is painted)
 AlignConstrained(o, j) ==
-  o.sty.tc # NoCol /\ o.sty.bg # NoCol /\ ~RIsEmpty(o.lines[j].map) /\ ~EndsWithCR(o.lines[j].text)
+  o.sty.tc # NoCol /\ o.sty.bg # NoCol /\ ~RIsEmpty(o.lines[j].map)
 AlignFails(o, j) ==
   IF AlignConstrained(o, j) /\ ~AlignOK(o.align, o.pos[1], RXMin(o.lines[j].map), RXMax(o.lines[j].map))
   THEN {"alignment"} ELSE {}
@@ -94,7 +95,7 @@ AlignDetail(o, j) ==
 \* (d)
 BaselineFails(o) ==
   LET off == BaselineOff(o.font, o.base)  l1 == o.lines[1] IN
-     (IF o.sty.tc # NoCol /\ o.sty.bg # NoCol /\ ~RIsEmpty(l1.map) /\ ~EndsWithCR(l1.text) /\ RYMin(l1.map) # o.pos[2] - off
+     (IF o.sty.tc # NoCol /\ o.sty.bg # NoCol /\ ~RIsEmpty(l1.map) /\ RYMin(l1.map) # o.pos[2] - off
       THEN {"baseline_offset"} ELSE {})
 \cup (IF o.top.used = 1 /\ o.whole.map # RShift(o.top.map, <<0, -off>>) THEN {"baseline_shift"} ELSE {})
 BaselineDetail(o) ==
@@ -104,11 +105,11 @@ BaselineDetail(o) ==
 
 \* (e)
 LinesFails(o) ==
-     (IF ROverlayEq(o.lf.map, [j \in 1..Len(o.lines) |-> o.lines[j].map]) THEN {} ELSE {"multiline_map"})
-\cup (IF o.lf.ret = o.lines[Len(o.lines)].ret THEN {} ELSE {"multiline_ret"})
+     (IF ROverlayEq(o.whole.map, [j \in 1..Len(o.lines) |-> o.lines[j].map]) THEN {} ELSE {"multiline_map"})
+\cup (IF o.whole.ret = o.lines[Len(o.lines)].ret THEN {} ELSE {"multiline_ret"})
 LinesDetail(o) ==
-  [rel |-> "lines", text |-> o.lf.text, align |-> o.align, base |-> o.base, lh |-> o.lh, ret |-> o.lf.ret,
-   last_ret |-> o.lines[Len(o.lines)].ret, box |-> RBox(o.lf.map),
+  [rel |-> "lines", text |-> o.text, align |-> o.align, base |-> o.base, lh |-> o.lh, ret |-> o.whole.ret,
+   last_ret |-> o.lines[Len(o.lines)].ret, box |-> RBox(o.whole.map),
    line_boxes |-> [j \in 1..Len(o.lines) |-> RBox(o.lines[j].map)]]
 
 \* (f)
@@ -118,25 +119,9 @@ CRLFFails(o) ==
   ELSE (IF o.whole.map = o.lf.map THEN {} ELSE {"crlf_map"})
   \cup (IF o.whole.ret = o.lf.ret THEN {} ELSE {"crlf_ret"})
   \cup (IF o.whole.bbox = o.lf.bbox THEN {} ELSE {"crlf_box"})
-\* Signature of the known defect D11 (text.rs measures a CR LF terminated line with its CR): the
-\* picture of T is the overlay of the lines of T' with every line that was CR LF terminated moved
-\* left by the difference of the alignment offsets of the two widths.  Used only in the detail of
-\* a (f) verdict so that known_findings.json can pin HOW the case fails; never decides a verdict.
-AlignOffsetD11(align, w) == CASE align = 0 -> 0 [] align = 2 -> w - 1 [] OTHER -> TruncDiv(w - 1, 2)
-D11Explains(o) ==
-  LET tls == SplitLF(o.text) IN
-  /\ Len(tls) = Len(o.lines)
-  /\ ROverlayEq(o.whole.map,
-       [j \in 1..Len(o.lines) |->
-          IF EndsWithCR(tls[j]) /\ o.lines[j].text = SubSeq(tls[j], 1, Len(tls[j]) - 1)
-          THEN RShift(o.lines[j].map,
-                      <<AlignOffsetD11(o.align, LineWidth(o.font, Len(tls[j]) - 1))
-                        - AlignOffsetD11(o.align, LineWidth(o.font, Len(tls[j]))), 0>>)
-          ELSE o.lines[j].map])
 CRLFDetail(o) ==
   [rel |-> "crlf", text |-> o.text, align |-> o.align, ret |-> o.whole.ret, lf_ret |-> o.lf.ret,
-   bbox |-> o.whole.bbox, lf_bbox |-> o.lf.bbox, box |-> RBox(o.whole.map), lf_box |-> RBox(o.lf.map),
-   d11 |-> D11Explains(o)]
+   bbox |-> o.whole.bbox, lf_bbox |-> o.lf.bbox, box |-> RBox(o.whole.map), lf_box |-> RBox(o.lf.map)]
 
 \* (b)
 ChainFails(o, i) ==
